@@ -142,10 +142,9 @@ func execC13Float(fn int, r *R) []int64 {
 }
 
 // c13FloatRangeShape classifies a Range[float64] call WITHOUT calling the code under test, by running the
-// bare counter of the loops as they are written in range.go (i += step / i -= |step| in float64): "err" (the
-// arguments are rejected), "ends" with the number of terms, "hangs" (the loop condition holds and the counter
-// no longer changes: the call never returns), "long" (more than max iterations).  It only decides which cases
-// are sent and how many of the hanging ones; the judgement is the Coq model's.
+// bare counter of the loops of range.go (i += step / i -= |step| in float64, until the counter reaches end or
+// stops moving): "err" (the arguments are rejected), "ends" with an upper bound of the number of terms, "long"
+// (more than max iterations).  It only decides which cases are sent; the judgement is the Coq model's.
 func c13FloatRangeShape(args []float64, max int) (string, int) {
 	var start, step, end float64
 	switch len(args) {
@@ -167,11 +166,8 @@ func c13FloatRangeShape(args []float64, max int) (string, int) {
 	if end > 0 {
 		for i := start; i < end; i += step {
 			n++
-			if i+step < i {
+			if !(i+step > i) {
 				break
-			}
-			if i+step == i {
-				return "hangs", n
 			}
 			if n > max {
 				return "long", n
@@ -181,11 +177,8 @@ func c13FloatRangeShape(args []float64, max int) (string, int) {
 		a := math.Abs(step)
 		for i := start; end < i; i -= a {
 			n++
-			if i-a > i {
+			if !(i-a < i) {
 				break
-			}
-			if i-a == i {
-				return "hangs", n
 			}
 			if n > max {
 				return "long", n
@@ -193,20 +186,6 @@ func c13FloatRangeShape(args []float64, max int) (string, int) {
 		}
 	}
 	return "ends", n
-}
-
-// c13FloatExpectedHang: the wire input is a Range/RangeRight[float64] call that never returns as the loops
-// are written today (such calls are not counted as runaway calls of a defective tree, see c13RangeViaChild).
-func c13FloatExpectedHang(in []int64) bool {
-	if len(in) < 2 || (in[0] != 65 && in[0] != 66) || int(in[1]) != len(in)-2 {
-		return false
-	}
-	args := make([]float64, len(in)-2)
-	for i := range args {
-		args[i] = math.Float64frombits(uint64(in[2+i]))
-	}
-	sh, _ := c13FloatRangeShape(args, 6000)
-	return sh == "hangs"
 }
 
 func c13FInts(fs []float64) []int {
@@ -233,9 +212,10 @@ func genC13Float(g *Gen, emit func(stream string, nt bool, w *W)) {
 			fn(s)
 		})
 	}
-	// --- exhaustive: every slice of length <= 3 over the 20 special values for the six plain aggregates /
-	// extrema (thorough: length <= 4 over the first 15), every slice of length <= 2 (and length 3 over the first
-	// 9) x 4 key functions for SumBy / FindMinBy / FindMaxBy
+	// --- exhaustive: every slice of length <= 2 over the 20 special values and of length 3 over the first 14
+	// (thorough: length 3 over all 20, length 4 over the first 15) for the six plain aggregates / extrema; every
+	// slice of length <= 2, and of length 3 over the first 7 (thorough 14), x 4 key functions for SumBy /
+	// FindMinBy / FindMaxBy
 	plain := func(s []float64) {
 		for _, fn := range []int{50, 52, 53, 54, 55, 56} {
 			emit("float", len(s) > 1, (&W{}).Int(fn).Ints(c13FInts(s)))
@@ -248,7 +228,14 @@ func genC13Float(g *Gen, emit func(stream string, nt bool, w *W)) {
 			}
 		}
 	}
-	slicesOfFloats(sp, 3, plain)
+	slicesOfFloats(sp, 2, plain)
+	seqsExact(g.Pick(14, 20), 3, func(seq []int) {
+		s := make([]float64, 3)
+		for i, v := range seq {
+			s[i] = sp[v]
+		}
+		plain(s)
+	})
 	if !g.Quick() {
 		seqsExact(15, 4, func(seq []int) {
 			s := make([]float64, 4)
@@ -259,33 +246,39 @@ func genC13Float(g *Gen, emit func(stream string, nt bool, w *W)) {
 		})
 	}
 	slicesOfFloats(sp, 2, keyed)
-	seqsExact(g.Pick(9, 14), 3, func(seq []int) {
+	seqsExact(g.Pick(7, 14), 3, func(seq []int) {
 		s := make([]float64, 3)
 		for i, v := range seq {
 			s[i] = sp[v]
 		}
 		keyed(s)
 	})
-	// Abs, Compare/Less/Equal, Clamp/InRange over all singles / pairs / triples of the special values
-	for _, a := range sp {
+	// Abs, Compare/Less/Equal over all singles / pairs of the special values; Clamp/InRange over all triples of
+	// the first 13 (thorough: all 20)
+	nc := g.Pick(13, 20)
+	for ia, a := range sp {
 		emit("float", true, (&W{}).Int(59).I64(c13FBits(a)))
 		emit("float", true, (&W{}).Int(59).I64(c13FBits(-a)))
-		for _, b := range sp {
+		for ib, b := range sp {
 			emit("float", true, (&W{}).Int(62).Int(0).I64(c13FBits(a)).I64(c13FBits(b)))
 			emit("float", true, (&W{}).Int(62).Int(1).I64(c13FBits(a)).I64(c13FBits(b)))
 			emit("float", true, (&W{}).Int(63).I64(c13FBits(a)).I64(c13FBits(b)))
 			emit("float", true, (&W{}).Int(64).I64(c13FBits(a)).I64(c13FBits(b)))
-			for _, c := range sp {
+			for ic, c := range sp {
+				if ia >= nc || ib >= nc || ic >= nc {
+					continue
+				}
 				emit("float", b <= c, (&W{}).Int(60).I64(c13FBits(a)).I64(c13FBits(b)).I64(c13FBits(c)))
 				emit("float", true, (&W{}).Int(61).I64(c13FBits(a)).I64(c13FBits(b)).I64(c13FBits(c)))
 			}
 		}
 	}
-	// ByKey at map[int]float64: lists of <= 3 maps over keys {0,1} and values {NaN, -0, +0, 1, -1, +Inf}
+	// ByKey at map[int]float64: lists of <= 3 maps over keys {0,1} and values {NaN, -0, +0, 1, -1, +Inf} (quick:
+	// the first 7 of the 10 one-map shapes)
 	nz, nan, inf := int(c13FBits(math.Copysign(0, -1))), int(c13FBits(math.NaN())), int(c13FBits(math.Inf(1)))
 	f1, fm1 := int(c13FBits(1)), int(c13FBits(-1))
 	oneMaps := [][]int{{}, {0, nan}, {0, nz}, {0, 0}, {0, f1}, {0, fm1}, {0, inf}, {1, f1}, {0, nan, 1, f1}, {0, f1, 1, nan}}
-	seqsUpTo(len(oneMaps), 3, func(seq []int) {
+	seqsUpTo(g.Pick(7, len(oneMaps)), 3, func(seq []int) {
 		ms := make([][]int, len(seq))
 		for i, v := range seq {
 			ms[i] = oneMaps[v]
@@ -295,26 +288,20 @@ func genC13Float(g *Gen, emit func(stream string, nt bool, w *W)) {
 			emit("float", len(ms) > 1, (&W{}).Int(68).Int(key).Intss(ms))
 		}
 	})
-	// Range / RangeRight: every single, pair and triple over 24 values that ends within 300 (thorough 3000)
-	// iterations or is rejected; calls that never return are counted and two of them are sent at the very end
-	rv := []float64{math.Copysign(0, -1), 0, 1, -1, 0.1, 0.2, 0.3, 0.5, 1.5, 2, 3, -2, 10, 0.01, 0.005, 2.675, -0.001,
-		math.NaN(), math.Inf(1), math.Inf(-1), 1 << 53, 1<<53 + 2, 1e308, 5e-324}
-	maxIt := g.Pick(300, 3000)
-	var hanging [][]float64
+	// Range / RangeRight: every single, pair and triple over 24 values (quick: triples over the first 14) that
+	// ends within 100 (thorough 3000) iterations or is rejected
+	rv := []float64{math.Copysign(0, -1), 0, 1, -1, 0.1, 0.3, 2, -0.001, 0.005, 2.675,
+		math.NaN(), math.Inf(1), 1 << 53, 1<<53 + 2, math.Inf(-1), 0.2, 0.5, 5e-324, 1e308, 1.5, 3, -2, 10, 0.01}
+	nt := g.Pick(14, 24)
+	maxIt := g.Pick(100, 3000)
 	rangeCase := func(fn int, args []float64) {
 		sh, _ := c13FloatRangeShape(args, maxIt)
-		switch sh {
-		case "hangs":
-			g.Count("float_range_call_that_never_returns")
-			if len(hanging) < 2 && fn == 65 {
-				hanging = append(hanging, args)
-			}
-		case "long":
+		if sh == "long" {
 			g.Count("float_range_case_skipped_too_many_terms")
-		default:
-			g.Count("float_range_" + sh)
-			emit("float", true, (&W{}).Int(fn).Ints(c13FInts(args)))
+			return
 		}
+		g.Count("float_range_" + sh)
+		emit("float", true, (&W{}).Int(fn).Ints(c13FInts(args)))
 	}
 	rangeCase(65, nil)
 	rangeCase(65, []float64{1, 2, 3, 4})
@@ -325,6 +312,9 @@ func genC13Float(g *Gen, emit func(stream string, nt bool, w *W)) {
 			rangeCase(65, []float64{a, b})
 			rangeCase(66, []float64{a, b})
 			for ic, c := range rv {
+				if ia >= nt || ib >= nt || ic >= nt {
+					continue
+				}
 				rangeCase(65, []float64{a, b, c})
 				if (ia+ib+ic)%3 == 0 {
 					rangeCase(66, []float64{a, b, c})
@@ -361,7 +351,7 @@ func genC13Float(g *Gen, emit func(stream string, nt bool, w *W)) {
 			return ordinary()
 		}
 	}
-	nr := g.Pick(6000, 60000)
+	nr := g.Pick(3000, 60000)
 	for i := 0; i < nr; i++ {
 		gen := pick
 		if i%3 == 0 {
@@ -412,7 +402,7 @@ func genC13Float(g *Gen, emit func(stream string, nt bool, w *W)) {
 	}
 	// random ordinary ranges: start / end in cents or tenths, steps from 0.01 to 2.5, both directions
 	steps := []float64{0.01, 0.02, 0.05, 0.1, 0.2, 0.25, 0.3, 0.7, 1, 1.1, 2.5, 1.0 / 3, 0.001, 0.015}
-	for i := 0; i < g.Pick(1500, 15000); i++ {
+	for i := 0; i < g.Pick(800, 15000); i++ {
 		a := float64(g.Rng.Intn(1001)-500) / 100
 		st := steps[g.Rng.Intn(len(steps))]
 		k := g.Rng.Intn(40)
@@ -431,10 +421,6 @@ func genC13Float(g *Gen, emit func(stream string, nt bool, w *W)) {
 			args = args[:1+g.Rng.Intn(2)]
 		}
 		rangeCase(65+g.Rng.Intn(2), args)
-	}
-	// the calls that never return, last (each costs the time the child process needs to fill its heap)
-	for _, args := range hanging {
-		emit("float", true, (&W{}).Int(65).Ints(c13FInts(args)))
 	}
 }
 
